@@ -37,6 +37,14 @@ const LOG_TARGET: &str = "litep2p::ipfs::kademlia::query::find_node";
 /// Default timeout for a peer to respond to a query.
 const DEFAULT_PEER_TIMEOUT: std::time::Duration = std::time::Duration::from_secs(10);
 
+/// Current time (an offset clock under the verification cfg).
+#[cfg(not(litep2p_verif))]
+fn now() -> std::time::Instant {
+    std::time::Instant::now()
+}
+#[cfg(litep2p_verif)]
+use crate::verif::clock::now;
+
 /// The configuration needed to instantiate a new [`FindNodeContext`].
 #[derive(Debug, Clone)]
 pub struct FindNodeConfig<T: Clone + Into<Vec<u8>>> {
@@ -223,7 +231,7 @@ impl<T: Clone + Into<Vec<u8>>> FindNodeContext<T> {
         let peer = candidate.peer;
 
         tracing::trace!(target: LOG_TARGET, query = ?self.config.query, ?peer, "current candidate");
-        self.pending.insert(candidate.peer, (candidate, std::time::Instant::now()));
+        self.pending.insert(candidate.peer, (candidate, now()));
         self.pending_responses = self.pending_responses.saturating_add(1);
 
         Some(QueryAction::SendMessage {
@@ -265,7 +273,7 @@ impl<T: Clone + Into<Vec<u8>>> FindNodeContext<T> {
         }
 
         for (peer, instant) in self.pending.values() {
-            if instant.elapsed() > self.peer_timeout {
+            if now().saturating_duration_since(*instant) > self.peer_timeout {
                 tracing::trace!(
                     target: LOG_TARGET,
                     query = ?self.config.query,
@@ -307,6 +315,14 @@ impl<T: Clone + Into<Vec<u8>>> FindNodeContext<T> {
         Some(QueryAction::QuerySucceeded {
             query: self.config.query,
         })
+    }
+}
+
+#[cfg(litep2p_verif)]
+impl<T: Clone + Into<Vec<u8>>> FindNodeContext<T> {
+    /// Number of pending responses counted towards the parallelism factor (verification seam).
+    pub fn verif_pending_responses(&self) -> usize {
+        self.pending_responses
     }
 }
 
